@@ -18,6 +18,175 @@ DELS = 'fim.slivers.delegations'
 ARM = 'fim.graph.resources.abc_arm:ABCARMPropertyGraph'
 
 
+def check_delegation_codec(prog, rep, rule):
+    """Encoder / decoder of a Delegations value agree (key constants, formats, type <-> field <-> class) and every decoded
+    entry is determined within its own iteration. Shared with C13 (the partitioning writes per-id subsets through this codec)."""
+    mod = prog.module(DELS)
+    delegs = mod.classes.get('Delegations')
+    if delegs is None:
+        raise AnalysisError('Delegations class vanished')
+    # ---- R2 encoder / decoder ----
+    tj = delegs.methods.get('to_json')
+    fj = delegs.methods.get('from_json')
+    def field_consts(fn):
+        return sorted({n.attr for n in ast.walk(fn) if isinstance(n, ast.Attribute) and
+                       (n.attr.startswith('FIELD_') or n.attr == 'SINGLE_POOL_NAME')})
+    wk, rk = field_consts(tj), field_consts(fj)
+    rep.instance(rule, f'to_json constants {wk}; from_json constants {rk}')
+    if wk != rk:
+        rep.violation(rule, loc(mod, fj), 'Delegations.from_json', f'written {wk} read {rk}',
+                      'the encoder and decoder of delegations do not use the same key constants')
+    fmts = prog.enum_members(mod.classes['DelegationFormat'])
+    for f in fmts:
+        w = any(isinstance(n, ast.Compare) and f'DelegationFormat.{f}' in ast.unparse(n) for n in ast.walk(tj))
+        rep.instance(rule, f'format {f}: encoded={w}')
+        if not w:
+            rep.violation(rule, loc(mod, tj), 'Delegations.to_json', f'format {f} not encoded', f'{f} delegations are dropped on encode')
+    # ---- the encoder as a table: (format, type) -> {key constant: value}, from the path-sensitive evaluation of to_json ----
+    tji = inline(prog, delegs, tj)
+    fji = inline(prog, delegs, fj)
+
+    def const_name(e):
+        return e.attr if isinstance(e, ast.Attribute) and (e.attr.startswith('FIELD_') or e.attr == 'SINGLE_POOL_NAME') else None
+
+    def fmt_of_conds(conds):
+        hit = [f for f in fmts for c in conds if isinstance(c, ast.Compare) and len(c.ops) == 1 and isinstance(c.ops[0], ast.Eq) and
+               any(isinstance(x, ast.Attribute) and x.attr == f and ast.unparse(x.value) == 'DelegationFormat' for x in (c.left, c.comparators[0]))]
+        return hit[0] if len(set(hit)) == 1 else None
+
+    def type_of_conds(conds):
+        for c in conds:
+            if isinstance(c, ast.Compare) and len(c.ops) == 1 and isinstance(c.ops[0], (ast.Eq, ast.NotEq)):
+                for x in (c.left, c.comparators[0]):
+                    if isinstance(x, ast.Attribute) and ast.unparse(x.value) == 'DelegationType' and x.attr in ('CAPACITY', 'LABEL'):
+                        pos = isinstance(c.ops[0], ast.Eq)
+                        return x.attr if pos else ('LABEL' if x.attr == 'CAPACITY' else 'CAPACITY')
+        return None
+    dict_names = {n.targets[0].value.id for n in ast.walk(tji) if isinstance(n, ast.Assign) and isinstance(n.targets[0], ast.Subscript)
+                  and isinstance(n.targets[0].value, ast.Name) and const_name(n.targets[0].slice)}
+
+    def enc_sink(st):
+        if isinstance(st, ast.Assign) and len(st.targets) == 1 and isinstance(st.targets[0], ast.Subscript) and \
+                isinstance(st.targets[0].value, ast.Name) and st.targets[0].value.id in dict_names:
+            return (st.targets[0].slice, st.value)
+        return None
+    try:
+        enc = merge_outcomes(branch_values(tji.body, enc_sink, follow_loops=True))
+    except Unknown as u:
+        raise AnalysisError(f'Delegations.to_json not analysable: {u}')
+    table = {}
+    for o in enc:
+        k = const_name(o.target)
+        f = fmt_of_conds(o.cond_nodes)
+        t = type_of_conds(o.cond_nodes)
+        if k is None or f is None:
+            continue
+        table.setdefault(f, []).append((k, t, o))
+    want = {'SinglePool': {'FIELD_POOL_ID', 'FIELD_CAPACITIES', 'FIELD_LABELS'},
+            'PoolDefinition': {'FIELD_POOL_ID', 'FIELD_CAPACITIES', 'FIELD_LABELS'},
+            'PoolReference': {'FIELD_POOL'}}
+
+    def is_call_on_entry(v, name):
+        return isinstance(v, ast.Call) and call_name(v) == name and not v.args
+    for f in fmts:
+        rows = table.get(f, [])
+        got = {k for k, t, o in rows}
+        rep.instance(rule, f'to_json[{f}] writes {sorted(got)}')
+        if got != want.get(f, set()):
+            rep.violation(rule, loc(mod, tj), 'Delegations.to_json', f'{f}: writes {sorted(got)}',
+                          f'a {f} delegation must be encoded with exactly {sorted(want.get(f, set()))}')
+        for k, t, o in rows:
+            v = o.value
+            if k == 'FIELD_POOL_ID' and f == 'SinglePool' and const_name(v) != 'SINGLE_POOL_NAME':
+                rep.violation(rule, loc(mod, o.stmt), 'Delegations.to_json', f'SinglePool: pool id written as {ctext(v)}',
+                              'a single-resource delegation must be marked with SINGLE_POOL_NAME (the decoder recognises it by that value)')
+            if k == 'FIELD_POOL_ID' and f == 'PoolDefinition' and not is_call_on_entry(v, 'get_pool_name'):
+                rep.violation(rule, loc(mod, o.stmt), 'Delegations.to_json', 'PoolDefinition: pool id not from get_pool_name()', 'pool name lost')
+            if k == 'FIELD_POOL' and not is_call_on_entry(v, 'get_pool_name'):
+                rep.violation(rule, loc(mod, o.stmt), 'Delegations.to_json', 'PoolReference: pool not from get_pool_name()', 'pool name lost')
+            if k in ('FIELD_CAPACITIES', 'FIELD_LABELS'):
+                rep.instance(rule, f'to_json[{f}]: {k} written for type {t}')
+                if t != ('CAPACITY' if k == 'FIELD_CAPACITIES' else 'LABEL'):
+                    rep.violation(rule, loc(mod, o.stmt), 'Delegations.to_json', 'type/field pairing',
+                                  'CAPACITY delegations must use the capacities field and LABEL delegations the labels field')
+                if not is_call_on_entry(v, 'get_details_as_dict'):
+                    rep.violation(rule, loc(mod, o.stmt), 'Delegations.to_json', f'{k} written as {ctext(v)}', 'the details of the entry are lost')
+    # ---- the decoder as a table: per entry, (format, pool id, details) decided within the iteration ----
+    dloops = [l for l in walk_no_nested(fji) if isinstance(l, ast.For) and any(isinstance(c, ast.Call) and call_name(c) == 'Delegation' for c in ast.walk(l))]
+    if len(dloops) != 1:
+        raise AnalysisError('Delegations.from_json: loop over the decoded entries not found')
+    dl = dloops[0]
+    bound = {n.id for n in ast.walk(dl.target) if isinstance(n, ast.Name)} | set(func_params(fji))
+
+    def dec_sink(st):
+        for c in walk_no_nested(st):
+            if isinstance(c, ast.Call) and call_name(c) == 'Delegation' and isinstance(c.func, ast.Name):
+                return (ast.Tuple(elts=[kwarg(c, 'aformat') or ast.Constant(None), kwarg(c, 'pool_id') or ast.Constant(None)], ctx=ast.Load()),
+                        ast.Constant(value='ctor'))
+            if isinstance(c, ast.Call) and call_name(c) == 'set_details' and c.args:
+                return (c.args[0], ast.Constant(value='details'))
+        return None
+    try:
+        dec = merge_outcomes(branch_values(dl.body, dec_sink))
+    except Unknown as u:
+        raise AnalysisError(f'Delegations.from_json not analysable: {u}')
+    seen_fmt = set()
+    for o in dec:
+        if o.vtext == "'ctor'":
+            fe, pe = o.target.elts
+            f = fe.attr if isinstance(fe, ast.Attribute) and ast.unparse(fe.value) == 'DelegationFormat' else None
+            rep.instance(rule, f'from_json: entry built as format {ctext(fe)} with pool id {ctext(pe)}')
+            stale = [n.id for x in (fe, pe) for n in ast.walk(x) if isinstance(n, ast.Name) and n.id not in bound and n.id[:1].islower()]
+            if stale:
+                rep.violation(rule, loc(mod, o.stmt), 'Delegations.from_json', f'entry built from {sorted(set(stale))}, not set in this iteration',
+                              f'on this path the entry is built with {sorted(set(stale))} as left by an earlier entry (or by the code before '
+                              f'the loop): the decoded delegation takes the format / pool name of whatever entry came before it, so the '
+                              f'result depends on the order of the entries in the text')
+                continue
+            if f is None:
+                rep.violation(rule, loc(mod, o.stmt), 'Delegations.from_json', f'format {ctext(fe)}', 'the format of a decoded entry is not one of the three formats')
+                continue
+            seen_fmt.add(f)
+            okp = (f == 'SinglePool' and isinstance(pe, ast.Constant) and pe.value is None) or \
+                  (f == 'PoolDefinition' and isinstance(pe, ast.Subscript) and const_name(pe.slice) == 'FIELD_POOL_ID') or \
+                  (f == 'PoolReference' and isinstance(pe, ast.Subscript) and const_name(pe.slice) == 'FIELD_POOL')
+            if not okp:
+                rep.violation(rule, loc(mod, o.stmt), 'Delegations.from_json', f'{f}: pool id decoded as {ctext(pe)}',
+                              f'a {f} entry must be rebuilt with ' + {'SinglePool': 'no pool name', 'PoolDefinition': 'the pool id field of the entry',
+                                                                     'PoolReference': 'the pool field of the entry'}[f])
+        else:
+            d = o.target
+            t = type_of_conds(o.cond_nodes)
+            cls_ = call_name(d) if isinstance(d, ast.Call) else None
+            fld = [const_name(x.slice) for x in ast.walk(d) if isinstance(x, ast.Subscript) and const_name(x.slice)]
+            rep.instance(rule, f'from_json: details rebuilt as {cls_} from {fld} for type {t}')
+            okd = (t == 'CAPACITY' and cls_ == 'Capacities' and fld == ['FIELD_CAPACITIES']) or (t == 'LABEL' and cls_ == 'Labels' and fld == ['FIELD_LABELS'])
+            if not okd:
+                rep.violation(rule, loc(mod, o.stmt), 'Delegations.from_json', 'type/class pairing',
+                              'CAPACITY details must be rebuilt as Capacities from the capacities field and LABEL details as Labels from the labels field')
+    for f in fmts:
+        if f not in seen_fmt:
+            rep.violation(rule, loc(mod, fj), 'Delegations.from_json', f'format {f} not decoded', f'{f} delegations cannot be decoded')
+    # from_json builds through the guarded API
+    floops = [l for l in walk_no_nested(fj) if isinstance(l, ast.For) and isinstance(l.iter, ast.Call) and call_name(l.iter) == 'items']
+    if not floops or not isinstance(floops[0].target, ast.Tuple):
+        raise AnalysisError('Delegations.from_json: loop over the decoded entries not found')
+    kvar = floops[0].target.elts[0].id
+    dctor = find_calls(floops[0], 'Delegation', nested=True)
+    rep.instance(rule, f'from_json builds each entry with {norm(dctor[0], 100) if dctor else None}')
+    ok = len(dctor) == 1 and call_matches(dctor[0], kwargs={'delegation_id': ('name', kvar), 'atype': ('name', None), 'aformat': ('name', None), 'pool_id': ('name', None)})
+    sdet = find_calls(floops[0], 'set_details', nested=True)
+    addc = find_calls(floops[0], 'add_delegations', nested=True)
+    dvar_ = None
+    for n in ast.walk(floops[0]):
+        if isinstance(n, ast.Assign) and dctor and n.value is dctor[0]:
+            dvar_ = n.targets[0].id
+    ok = ok and dvar_ is not None and any(receiver_name(c) == dvar_ for c in sdet) and any(call_matches(c, args=[('name', dvar_)]) for c in addc)
+    if not ok:
+        rep.violation(rule, loc(mod, fj), 'Delegations.from_json', 'entry not rebuilt through Delegation(...), set_details, add_delegations',
+                      'decoding must rebuild each entry with its id, format and pool id through the guarded setters')
+
+
 def run(prog, rep):
     rep.extra['explanation'] = (
         'Guard dominance of the two field writes on the CFG, who-may-write over the whole package, key-constant and '
@@ -111,166 +280,8 @@ def run(prog, rep):
                                           f'{fq} writes {hit} directly, bypassing the guards of set_details / add_delegations '
                                           f'(only rewrite_delegations may re-key one entry)')
 
-    # ---- R2 encoder / decoder ----
-    tj = delegs.methods.get('to_json')
-    fj = delegs.methods.get('from_json')
-    def field_consts(fn):
-        return sorted({n.attr for n in ast.walk(fn) if isinstance(n, ast.Attribute) and
-                       (n.attr.startswith('FIELD_') or n.attr == 'SINGLE_POOL_NAME')})
-    wk, rk = field_consts(tj), field_consts(fj)
-    rep.instance('R2', f'to_json constants {wk}; from_json constants {rk}')
-    if wk != rk:
-        rep.violation('R2', loc(mod, fj), 'Delegations.from_json', f'written {wk} read {rk}',
-                      'the encoder and decoder of delegations do not use the same key constants')
-    fmts = prog.enum_members(mod.classes['DelegationFormat'])
-    for f in fmts:
-        w = any(isinstance(n, ast.Compare) and f'DelegationFormat.{f}' in ast.unparse(n) for n in ast.walk(tj))
-        rep.instance('R2', f'format {f}: encoded={w}')
-        if not w:
-            rep.violation('R2', loc(mod, tj), 'Delegations.to_json', f'format {f} not encoded', f'{f} delegations are dropped on encode')
-    # ---- the encoder as a table: (format, type) -> {key constant: value}, from the path-sensitive evaluation of to_json ----
-    tji = inline(prog, delegs, tj)
-    fji = inline(prog, delegs, fj)
+    check_delegation_codec(prog, rep, 'R2')
 
-    def const_name(e):
-        return e.attr if isinstance(e, ast.Attribute) and (e.attr.startswith('FIELD_') or e.attr == 'SINGLE_POOL_NAME') else None
-
-    def fmt_of_conds(conds):
-        hit = [f for f in fmts for c in conds if isinstance(c, ast.Compare) and len(c.ops) == 1 and isinstance(c.ops[0], ast.Eq) and
-               any(isinstance(x, ast.Attribute) and x.attr == f and ast.unparse(x.value) == 'DelegationFormat' for x in (c.left, c.comparators[0]))]
-        return hit[0] if len(set(hit)) == 1 else None
-
-    def type_of_conds(conds):
-        for c in conds:
-            if isinstance(c, ast.Compare) and len(c.ops) == 1 and isinstance(c.ops[0], (ast.Eq, ast.NotEq)):
-                for x in (c.left, c.comparators[0]):
-                    if isinstance(x, ast.Attribute) and ast.unparse(x.value) == 'DelegationType' and x.attr in ('CAPACITY', 'LABEL'):
-                        pos = isinstance(c.ops[0], ast.Eq)
-                        return x.attr if pos else ('LABEL' if x.attr == 'CAPACITY' else 'CAPACITY')
-        return None
-    dict_names = {n.targets[0].value.id for n in ast.walk(tji) if isinstance(n, ast.Assign) and isinstance(n.targets[0], ast.Subscript)
-                  and isinstance(n.targets[0].value, ast.Name) and const_name(n.targets[0].slice)}
-
-    def enc_sink(st):
-        if isinstance(st, ast.Assign) and len(st.targets) == 1 and isinstance(st.targets[0], ast.Subscript) and \
-                isinstance(st.targets[0].value, ast.Name) and st.targets[0].value.id in dict_names:
-            return (st.targets[0].slice, st.value)
-        return None
-    try:
-        enc = merge_outcomes(branch_values(tji.body, enc_sink, follow_loops=True))
-    except Unknown as u:
-        raise AnalysisError(f'Delegations.to_json not analysable: {u}')
-    table = {}
-    for o in enc:
-        k = const_name(o.target)
-        f = fmt_of_conds(o.cond_nodes)
-        t = type_of_conds(o.cond_nodes)
-        if k is None or f is None:
-            continue
-        table.setdefault(f, []).append((k, t, o))
-    want = {'SinglePool': {'FIELD_POOL_ID', 'FIELD_CAPACITIES', 'FIELD_LABELS'},
-            'PoolDefinition': {'FIELD_POOL_ID', 'FIELD_CAPACITIES', 'FIELD_LABELS'},
-            'PoolReference': {'FIELD_POOL'}}
-
-    def is_call_on_entry(v, name):
-        return isinstance(v, ast.Call) and call_name(v) == name and not v.args
-    for f in fmts:
-        rows = table.get(f, [])
-        got = {k for k, t, o in rows}
-        rep.instance('R2', f'to_json[{f}] writes {sorted(got)}')
-        if got != want.get(f, set()):
-            rep.violation('R2', loc(mod, tj), 'Delegations.to_json', f'{f}: writes {sorted(got)}',
-                          f'a {f} delegation must be encoded with exactly {sorted(want.get(f, set()))}')
-        for k, t, o in rows:
-            v = o.value
-            if k == 'FIELD_POOL_ID' and f == 'SinglePool' and const_name(v) != 'SINGLE_POOL_NAME':
-                rep.violation('R2', loc(mod, o.stmt), 'Delegations.to_json', f'SinglePool: pool id written as {ctext(v)}',
-                              'a single-resource delegation must be marked with SINGLE_POOL_NAME (the decoder recognises it by that value)')
-            if k == 'FIELD_POOL_ID' and f == 'PoolDefinition' and not is_call_on_entry(v, 'get_pool_name'):
-                rep.violation('R2', loc(mod, o.stmt), 'Delegations.to_json', 'PoolDefinition: pool id not from get_pool_name()', 'pool name lost')
-            if k == 'FIELD_POOL' and not is_call_on_entry(v, 'get_pool_name'):
-                rep.violation('R2', loc(mod, o.stmt), 'Delegations.to_json', 'PoolReference: pool not from get_pool_name()', 'pool name lost')
-            if k in ('FIELD_CAPACITIES', 'FIELD_LABELS'):
-                rep.instance('R2', f'to_json[{f}]: {k} written for type {t}')
-                if t != ('CAPACITY' if k == 'FIELD_CAPACITIES' else 'LABEL'):
-                    rep.violation('R2', loc(mod, o.stmt), 'Delegations.to_json', 'type/field pairing',
-                                  'CAPACITY delegations must use the capacities field and LABEL delegations the labels field')
-                if not is_call_on_entry(v, 'get_details_as_dict'):
-                    rep.violation('R2', loc(mod, o.stmt), 'Delegations.to_json', f'{k} written as {ctext(v)}', 'the details of the entry are lost')
-    # ---- the decoder as a table: per entry, (format, pool id, details) decided within the iteration ----
-    dloops = [l for l in walk_no_nested(fji) if isinstance(l, ast.For) and any(isinstance(c, ast.Call) and call_name(c) == 'Delegation' for c in ast.walk(l))]
-    if len(dloops) != 1:
-        raise AnalysisError('Delegations.from_json: loop over the decoded entries not found')
-    dl = dloops[0]
-    bound = {n.id for n in ast.walk(dl.target) if isinstance(n, ast.Name)} | set(func_params(fji))
-
-    def dec_sink(st):
-        for c in walk_no_nested(st):
-            if isinstance(c, ast.Call) and call_name(c) == 'Delegation' and isinstance(c.func, ast.Name):
-                return (ast.Tuple(elts=[kwarg(c, 'aformat') or ast.Constant(None), kwarg(c, 'pool_id') or ast.Constant(None)], ctx=ast.Load()),
-                        ast.Constant(value='ctor'))
-            if isinstance(c, ast.Call) and call_name(c) == 'set_details' and c.args:
-                return (c.args[0], ast.Constant(value='details'))
-        return None
-    try:
-        dec = merge_outcomes(branch_values(dl.body, dec_sink))
-    except Unknown as u:
-        raise AnalysisError(f'Delegations.from_json not analysable: {u}')
-    seen_fmt = set()
-    for o in dec:
-        if o.vtext == "'ctor'":
-            fe, pe = o.target.elts
-            f = fe.attr if isinstance(fe, ast.Attribute) and ast.unparse(fe.value) == 'DelegationFormat' else None
-            rep.instance('R2', f'from_json: entry built as format {ctext(fe)} with pool id {ctext(pe)}')
-            stale = [n.id for x in (fe, pe) for n in ast.walk(x) if isinstance(n, ast.Name) and n.id not in bound and n.id[:1].islower()]
-            if stale:
-                rep.violation('R2', loc(mod, o.stmt), 'Delegations.from_json', f'entry built from {sorted(set(stale))}, not set in this iteration',
-                              f'on this path the entry is built with {sorted(set(stale))} as left by an earlier entry (or by the code before '
-                              f'the loop): the decoded delegation takes the format / pool name of whatever entry came before it, so the '
-                              f'result depends on the order of the entries in the text')
-                continue
-            if f is None:
-                rep.violation('R2', loc(mod, o.stmt), 'Delegations.from_json', f'format {ctext(fe)}', 'the format of a decoded entry is not one of the three formats')
-                continue
-            seen_fmt.add(f)
-            okp = (f == 'SinglePool' and isinstance(pe, ast.Constant) and pe.value is None) or \
-                  (f == 'PoolDefinition' and isinstance(pe, ast.Subscript) and const_name(pe.slice) == 'FIELD_POOL_ID') or \
-                  (f == 'PoolReference' and isinstance(pe, ast.Subscript) and const_name(pe.slice) == 'FIELD_POOL')
-            if not okp:
-                rep.violation('R2', loc(mod, o.stmt), 'Delegations.from_json', f'{f}: pool id decoded as {ctext(pe)}',
-                              f'a {f} entry must be rebuilt with ' + {'SinglePool': 'no pool name', 'PoolDefinition': 'the pool id field of the entry',
-                                                                     'PoolReference': 'the pool field of the entry'}[f])
-        else:
-            d = o.target
-            t = type_of_conds(o.cond_nodes)
-            cls_ = call_name(d) if isinstance(d, ast.Call) else None
-            fld = [const_name(x.slice) for x in ast.walk(d) if isinstance(x, ast.Subscript) and const_name(x.slice)]
-            rep.instance('R2', f'from_json: details rebuilt as {cls_} from {fld} for type {t}')
-            okd = (t == 'CAPACITY' and cls_ == 'Capacities' and fld == ['FIELD_CAPACITIES']) or (t == 'LABEL' and cls_ == 'Labels' and fld == ['FIELD_LABELS'])
-            if not okd:
-                rep.violation('R2', loc(mod, o.stmt), 'Delegations.from_json', 'type/class pairing',
-                              'CAPACITY details must be rebuilt as Capacities from the capacities field and LABEL details as Labels from the labels field')
-    for f in fmts:
-        if f not in seen_fmt:
-            rep.violation('R2', loc(mod, fj), 'Delegations.from_json', f'format {f} not decoded', f'{f} delegations cannot be decoded')
-    # from_json builds through the guarded API
-    floops = [l for l in walk_no_nested(fj) if isinstance(l, ast.For) and isinstance(l.iter, ast.Call) and call_name(l.iter) == 'items']
-    if not floops or not isinstance(floops[0].target, ast.Tuple):
-        raise AnalysisError('Delegations.from_json: loop over the decoded entries not found')
-    kvar = floops[0].target.elts[0].id
-    dctor = find_calls(floops[0], 'Delegation', nested=True)
-    rep.instance('R2', f'from_json builds each entry with {norm(dctor[0], 100) if dctor else None}')
-    ok = len(dctor) == 1 and call_matches(dctor[0], kwargs={'delegation_id': ('name', kvar), 'atype': ('name', None), 'aformat': ('name', None), 'pool_id': ('name', None)})
-    sdet = find_calls(floops[0], 'set_details', nested=True)
-    addc = find_calls(floops[0], 'add_delegations', nested=True)
-    dvar_ = None
-    for n in ast.walk(floops[0]):
-        if isinstance(n, ast.Assign) and dctor and n.value is dctor[0]:
-            dvar_ = n.targets[0].id
-    ok = ok and dvar_ is not None and any(receiver_name(c) == dvar_ for c in sdet) and any(call_matches(c, args=[('name', dvar_)]) for c in addc)
-    if not ok:
-        rep.violation('R2', loc(mod, fj), 'Delegations.from_json', 'entry not rebuilt through Delegation(...), set_details, add_delegations',
-                      'decoding must rebuild each entry with its id, format and pool id through the guarded setters')
     # ---- R3 ----
     gen = pools.methods.get('generate_delegations_by_node_id')
     inc = pools.methods.get('incorporate_delegation')
